@@ -287,6 +287,34 @@ def sequence_probes(ctx, prog, q):
             seqs.append([('-', one, one), ('-', hx, hx), ('-', sx, sx)])
         seqs.append([('+', one, one), ('+', hx, hx)])
         seqs.append([('+', one + 1, one), ('+', hx, hx)])
+    # ties at several magnitudes (so that the leading bit sits in different limbs) with one sticky bit far below, of either sign
+    for sc in ((0, 4, 8, 12, 20) if pty.bits <= 16 else (0, 8, 16, 32, 48, 64, 100)):
+        M = Fraction(2) ** sc
+        um = p.encode(M)
+        if p.decode(um) != M or um + 1 >= p.maxpos_bits:
+            continue
+        half = (p.decode(um + 1) - M) / 2
+        uh = p.encode(half)
+        if p.decode(uh) != half:
+            continue
+        ts = list(range(2, fb + 1, 2)) if fb <= 60 else sorted(set(list(range(2, fb + 1, 10)) + [62, 64, 66, 126, 128, 130, 190, 192, 194, fb - 2, fb]))
+        if ctx.tier == 'quick':
+            ts = ts[::2] + [t_ for t_ in (56, 64, 128, 192) if t_ in ts]
+        for t_ in ts:
+            st_ = Fraction(1, 2 ** t_)
+            if st_ >= half:
+                continue
+            us = p.encode(st_)
+            if p.decode(us) == st_:
+                prod = (us, one)
+            else:
+                r = p.encode(Fraction(1, 2 ** (t_ // 2)))
+                if t_ % 2 or p.decode(r) != Fraction(1, 2 ** (t_ // 2)):
+                    continue
+                prod = (r, r)
+            seqs.append([('+', um, one), ('+', uh, one), ('+',) + prod])
+            seqs.append([('+', um, one), ('+', uh, one), ('-',) + prod])
+            seqs.append([('-', um, one), ('-', uh, one), ('-',) + prod])
     # near maxpos / minpos
     big = p.encode(Fraction(2) ** ((pty.bits - 2) * (1 << pty.es) // 2 - 1))
     seqs.append([('+', big, big), ('+', 1, one)])
